@@ -67,7 +67,11 @@ func newScope(rootProvider *provider, parent *scope, ctx context.Context, cancel
 
 	// Initialize scoped services with no returns (initialization functions)
 	// These need to be called when the scope is created
-	for _, descriptor := range rootProvider.voidReturnScopedDescriptors {
+	rootProvider.voidReturnScopedDescriptorsMu.RLock()
+	initializers := rootProvider.voidReturnScopedDescriptors
+	rootProvider.voidReturnScopedDescriptorsMu.RUnlock()
+
+	for _, descriptor := range initializers {
 		if _, err := s.createInstance(descriptor); err != nil {
 			return nil, &ResolutionError{
 				ServiceType: descriptor.Type,
@@ -190,12 +194,20 @@ func (s *scope) CreateScope(ctx context.Context) (Scope, error) {
 
 	// Track child
 	s.childrenMu.Lock()
+	if s.children == nil {
+		// Close ran while the child was being created
+		s.childrenMu.Unlock()
+		_ = child.Close()
+		return nil, ErrScopeDisposed
+	}
 	s.children[child] = struct{}{}
 	s.childrenMu.Unlock()
 
 	// Track in provider
 	s.rootProvider.scopesMu.Lock()
-	s.rootProvider.scopes[child] = struct{}{}
+	if s.rootProvider.scopes != nil {
+		s.rootProvider.scopes[child] = struct{}{}
+	}
 	s.rootProvider.scopesMu.Unlock()
 
 	// Auto-close on context cancellation
@@ -292,22 +304,48 @@ func (s *scope) getInstance(key instanceKey) (any, bool) {
 // setInstance caches an instance in this scope in a thread-safe manner.
 // It also tracks the instance if it implements the Disposable interface
 // for proper cleanup when the scope is closed.
-func (s *scope) setInstance(descriptor *Descriptor, key instanceKey, instance any) {
+//
+// If the scope has been closed in the meantime (a resolution overlapping
+// Close), the instance is not kept: it is disposed right away and
+// ErrScopeDisposed is returned, so that nothing created on behalf of a closed
+// scope is leaked or handed out.
+func (s *scope) setInstance(descriptor *Descriptor, key instanceKey, instance any) error {
 	switch descriptor.Lifetime {
 	case Singleton:
 		s.rootProvider.setSingleton(key, instance)
 	case Scoped:
 		s.instancesMu.Lock()
+		if s.instances == nil {
+			s.instancesMu.Unlock()
+			return s.discardLateInstance(instance)
+		}
 		s.instances[key] = instance
 		s.instancesMu.Unlock()
 		fallthrough
 	case Transient:
 		if d, ok := instance.(Disposable); ok {
 			s.disposablesMu.Lock()
+			if s.disposables == nil {
+				// Close has already drained the disposal list
+				s.disposablesMu.Unlock()
+				return s.discardLateInstance(instance)
+			}
 			s.disposables = append(s.disposables, d)
 			s.disposablesMu.Unlock()
 		}
 	}
+
+	return nil
+}
+
+// discardLateInstance disposes an instance whose construction finished after
+// the scope was closed and reports the scope as disposed.
+func (s *scope) discardLateInstance(instance any) error {
+	if d, ok := instance.(Disposable); ok {
+		_ = d.Close()
+	}
+
+	return ErrScopeDisposed
 }
 
 var (
@@ -349,6 +387,11 @@ func (s *scope) resolve(key instanceKey, descriptor *Descriptor) (any, error) {
 		// Singletons are created at build time, no circular check needed
 		if instance, ok := s.rootProvider.getSingleton(key); ok {
 			return instance, nil
+		}
+
+		// A provider that is being closed has already dropped its singletons
+		if atomic.LoadInt32(&s.rootProvider.disposed) != 0 {
+			return nil, ErrProviderDisposed
 		}
 
 		// Singleton should have been created at build time
@@ -409,7 +452,9 @@ func (s *scope) createInstance(descriptor *Descriptor) (any, error) {
 			Group: descriptor.Group,
 		}
 
-		s.setInstance(descriptor, key, instance)
+		if err := s.setInstance(descriptor, key, instance); err != nil {
+			return nil, err
+		}
 		return instance, nil
 	}
 
@@ -462,7 +507,9 @@ func (s *scope) createInstance(descriptor *Descriptor) (any, error) {
 			Key:   descriptor.Key,
 			Group: descriptor.Group,
 		}
-		s.setInstance(descriptor, key, emptyStruct)
+		if err := s.setInstance(descriptor, key, emptyStruct); err != nil {
+			return nil, err
+		}
 		return emptyStruct, nil
 	}
 
@@ -516,7 +563,9 @@ func (s *scope) createInstance(descriptor *Descriptor) (any, error) {
 				Group: reg.Group,
 			}
 
-			s.setInstance(regDescriptor, key, value)
+			if err := s.setInstance(regDescriptor, key, value); err != nil {
+				return nil, err
+			}
 		}
 
 		if primaryService == nil {
@@ -554,7 +603,9 @@ func (s *scope) createInstance(descriptor *Descriptor) (any, error) {
 				Group: serviceDescriptor.Group,
 			}
 
-			s.setInstance(serviceDescriptor, key, value)
+			if err := s.setInstance(serviceDescriptor, key, value); err != nil {
+				return nil, err
+			}
 		}
 
 		return results[descriptor.MultiReturnIndex].Interface(), nil
@@ -574,7 +625,9 @@ func (s *scope) createInstance(descriptor *Descriptor) (any, error) {
 		Group: descriptor.Group,
 	}
 
-	s.setInstance(descriptor, key, instance)
+	if err := s.setInstance(descriptor, key, instance); err != nil {
+		return nil, err
+	}
 	return instance, nil
 }
 
